@@ -33,7 +33,10 @@ Inductive action :=
 | AQuitLoop (q : qtarget)                        (* desper.quit_loop(...) *)
 | ASwitch (h : Z) (cc cn : bool) (explicit_from : bool)   (* desper.switch(...) *)
 | ARaiseSW (h : Z) (cc cn : bool)                (* raise SwitchWorld(h, cc, cn) *)
-| AOther.                                        (* raise some other exception *)
+| AOther                                         (* raise some other exception *)
+| ADirect (h : Z) (cc cn : bool).                (* the_loop.switch(h, cc, cn) called directly
+                                                    inside a frame; the frame then goes on
+                                                    (scripted frame action only) *)
 
 Definition reaction := (ekind * action)%type.
 
